@@ -715,7 +715,7 @@ func c07NumCases(tier string) int {
 	if tier == "thorough" {
 		return 4000
 	}
-	return 220
+	return 500
 }
 
 // c07Stream builds the valid stream of case idx.
@@ -741,6 +741,13 @@ func c07Stream(ctx *Ctx, idx int, r *RNG) (stream []byte, layout string, keys []
 	}
 	if maxTotal > 60000 {
 		ks = KeySet{"nibble-dense", genNibbleDense(r, 400)}
+	}
+	if idx%100 == 57 {
+		// a few streams beyond 64 KiB: header/body boundaries and sampled interior cuts
+		ks = KeySet{"uniform-large", genUniform(r, 9000)}
+		for len(ks.Keys) < 6000 {
+			ks = KeySet{"uniform-large", genUniform(r, 9000)}
+		}
 	}
 	keys = ks.Keys
 	n := len(keys)
@@ -1321,7 +1328,7 @@ func init() {
 		NumCases:      c07NumCases,
 		Run:           runC07,
 		MinNontrivial: func(tier string) int { return 100 },
-		Gates:         shapeGates("cuts", "cuts:guard_paged", "streams:every_cut_enumerated", "versions:reject", "versions:either", "layout:current", "layout:0.5.10", "layout:0.5.11", "layout:3sec"),
+		Gates:         shapeGates("cuts", "cuts:guard_paged", "streams:every_cut_enumerated", "streams:sampled_cuts", "versions:reject", "versions:either", "layout:current", "layout:0.5.10", "layout:0.5.11", "layout:3sec"),
 		Exhaustive:    func(tier string) bool { return true },
 		Finish: func(tier string, m *Merged, cov map[string]interface{}) {
 			cov["exhaustive_note"] = fmt.Sprintf("exhaustive over the cut points of the %d streams of this run that are <= 64 KiB (%d cuts in total); %d larger streams were sampled", m.C("streams:every_cut_enumerated"), m.C("cuts"), m.C("streams:sampled_cuts"))
